@@ -21,12 +21,14 @@ from koala.flux_finder import fluxes_from_bonds
 DRIVERS = ("c10",)
 TRANSLATORS = ("tiling_helpers",)
 MODEL_TARGETS = ["Gen/TilingGen.vo", "Model/Lattice.vo", "Model/Tiling.vo", "Model/Examples.vo"]
-TARGETS = ["Proofs/TilingFacts.vo", "Proofs/TilingCount.vo", "Proofs/ExamplesFacts.vo", "Proofs/ExamplesIndex.vo", "Proofs/ExamplesCensus.vo", "Proofs/ExamplesCensusHC1.vo", "Proofs/ExamplesCensusHC2.vo", "Proofs/ExamplesCensusHC3.vo", "Proofs/ExamplesClaims.vo"]
+TARGETS = ["Proofs/TilingFacts.vo", "Proofs/TilingCount.vo", "Proofs/ExamplesFacts.vo", "Proofs/ExamplesIndex.vo", "Proofs/ExamplesCensus.vo", "Proofs/ExamplesCensusHC1.vo", "Proofs/ExamplesCensusHC2.vo", "Proofs/ExamplesCensusHC3.vo", "Proofs/ExamplesClaims.vo",
+           "Proofs/PeriodicRot.vo", "Proofs/PeriodicFaces.vo", "Proofs/PeriodicTile.vo", "Proofs/PeriodicExamples.vo",
+           "Proofs/PeriodicBlock.vo", "Proofs/PeriodicGenerators.vo", "Proofs/TileDegree.vo"]
 LEVEL = "proof"
 TRUST = [
     "translate/tiling_helpers.py maps Python int //, %, comparisons, bool*int of _next_cell_number, _crossing and the two nested next_direction closures to Z.div, Z.modulo, Z.eqb, b2z (validated on an exhaustive grid of small arguments on every run, divisors != 0; not proved)",
     "hand-written Gallina models coq/Model/Tiling.v (tile_unit_cell's double loop) and coq/Model/Examples.v (numpy index arithmetic of the generators): modelled, not verified; tied to the code by the correspondence run for every size in the property's quantifier",
-    "plaquette census theorems use coq/Model/Lattice.v's find_all_plaquettes (C01's model, tied to lattice.py by C01's correspondence) and are vm_compute proofs for exactly the stated finite size ranges",
+    "plaquette census theorems use coq/Model/Lattice.v's find_all_plaquettes (C01's model, tied to lattice.py by C01's correspondence); they hold for ALL sizes >= 2 (Proofs/Periodic*.v: faces of a periodic lattice = translates of the faces of its cell; per-cell certificates computed and checked in Coq) and, independently, by vm_compute for the quantifier's size ranges; ladder census and make_honeycomb flux sector remain bounded (vm_compute)",
     "honeycomb y-positions contain the irrational uniform shift 0.01/(sqrt3*nv): the model uses it to 18 decimals (census, areas, rotation system are invariant under a uniform translation); single_plaquette / wheel / wobbling ladder positions (cos, sin) are taken from the implementation as exact dyadics",
     "float positions of the implementation are compared with the exact rational model values to 1e-12; combinatorics exactly",
 ]
